@@ -182,7 +182,7 @@ func (g *generatorv2) funcMap(
 }
 
 func (g *generatorv2) posInfo(n ast.Node) *PosInfo {
-	pos := g.fset.Position(n.Pos())
+	pos := g.fset.PositionFor(n.Pos(), false /* adjusted */)
 	posInfo := &PosInfo{
 		File:   filepath.Join(g.pkg.Path(), filepath.Base(pos.Filename)),
 		Line:   pos.Line,
